@@ -12,22 +12,39 @@ def b(s):
     return list(s.encode("latin-1")) if isinstance(s, str) else list(s)
 
 
-def setconf_vector(args, keysok):
+def setconf_vector(args, keysok, ctx="idle"):
+    """ctx "queued": the call is made while another command is in flight and an earlier set_conf is
+    waiting in the queue; what is recorded is what this call's own command line turns out to be"""
     run = cc.Run(wrap=False)
     p, tr = run.proto, run.tr
     err = False
     fired = []
+    if ctx == "queued":
+        p.queue_command("GETINFO version").addErrback(lambda f: None)
+        p.set_conf("Nickname", "earlier").addErrback(lambda f: None)
+        assert tr.value() == b"GETINFO version\r\n", tr.value()
+        tr.clear()
     try:
         d = p.set_conf(*args)
         d.addBoth(fired.append)
     except Exception:
         err = True
+    extra = b""
+    if ctx == "queued":
+        extra = tr.value()      # nothing may be written while a reply is outstanding
+        tr.clear()
+        p.dataReceived(b"250-version=0.4.8.0\r\n250 OK\r\n")
+        first = tr.value()
+        tr.clear()
+        if first != b"SETCONF Nickname=earlier\r\n":
+            extra += first      # the earlier call's line is not its own any more: it counts as output of this call
+        p.dataReceived(b"250 OK\r\n")
     if fired and isinstance(fired[0], failure.Failure):
         err = True
-    wrote = tr.value()
+    wrote = extra + tr.value()
     pairs = [[b(str(args[i])), b(str(args[i + 1]))] for i in range(0, len(args) - 1, 2)]
     return dict(p="C12", pairs=pairs, keysok=keysok, wrote=list(wrote), err=err,
-                args=[repr(a) for a in args])
+                args=[repr(a) for a in args], ctx=ctx)
 
 
 def _deliver(proto, data, seg, rng):
@@ -73,11 +90,24 @@ NOISE = {
 }
 
 
+CANCELLED_REPLY = b"250-version=0.4.8.0\r\n250 OK\r\n"
+
+
 def _noise(proto, noise, when):
-    """noise = <shape>@<when>: an unsolicited event before the command is issued or before its reply"""
+    """noise = <shape>@<when>: an unsolicited event before the command is issued or before its reply;
+    cancel@before: an earlier command is in flight whose caller has given up (cancelled its Deferred):
+    Tor still answers it, and the answer must not be taken for the next command's"""
     if not noise or noise == "none":
         return
     shape, at = noise.split("@")
+    if shape == "cancel":
+        if when == "before":
+            d0 = proto.get_info("version")
+            d0.addErrback(lambda f: None)
+            d0.cancel()
+        elif when == "during":
+            proto.dataReceived(CANCELLED_REPLY)
+        return
     if at == when:
         proto.dataReceived(NOISE[shape])
 
